@@ -55,19 +55,20 @@ Theorem c08_lost_exact : forall (l : list op) o, loss_op o = true ->
 Proof. exact (fun l o H => lost_exact (runs init l) o (inv_runs l init inv_init) H). Qed.
 Print Assumptions c08_lost_exact.
 
-Theorem c08_lost_unchanged_otherwise : forall s o, loss_op o = false ->
+Theorem c08_lost_unchanged_otherwise : forall s o, quiet_op o = true ->
   mLost (mets (fst (step s o))) = mLost (mets s).
 Proof. exact lost_unchanged. Qed.
 Print Assumptions c08_lost_unchanged_otherwise.
 
 (* Placement: a sector that had no slot and is stored successfully went to an empty slot of an
    available, writable volume (and is there afterwards). *)
-Theorem c08_placement_only_writable : forall r loc ok s s',
+Theorem c08_placement_only_writable : forall (l : list op) r loc ok s',
+  let s := runs init l in
   step s (Store r loc ok) = (s', ORes (Ok tt)) -> vfind r (vols s) = None ->
   exists v i vl, loc = Some (v, i) /\ ok = true /\
     vget v (vols s) = Some vl /\ vavail vl = true /\ vro vl = false /\
     sget i (vslots vl) = Some None /\ slot_at s' v i = Some (Some r).
-Proof. exact store_placement. Qed.
+Proof. exact (fun l r loc ok s' => store_placement r loc ok (runs init l) s' (inv_runs l init inv_init)). Qed.
 Print Assumptions c08_placement_only_writable.
 
 (* ErrNotEnoughStorage exactly when the sector has no slot and no available, writable volume has
